@@ -60,23 +60,34 @@ var scalarJunk = []string{`null`, `""`, `"x"`, `0`, `-1`, `true`, `[]`, `{}`, `"
 
 func junk(r *rand.Rand) string { return scalarJunk[r.Intn(len(scalarJunk))] }
 
+// tidy documents are mostly well-formed (junk at one site in forty or so), so that the deeper shapes of valid
+// documents are reached; the others carry junk at every sixth site.
+var tidy bool
+
+func jk(r *rand.Rand, n int) bool {
+	if tidy {
+		return r.Intn(n*8) == 0
+	}
+	return r.Intn(n) == 0
+}
+
 func relayObj(r *rand.Rand, proposerLevel bool) string {
-	if r.Intn(6) == 0 {
+	if jk(r, 6) {
 		return junk(r)
 	}
 	var f []string
 	add := func(k, good string) {
-		switch r.Intn(6) {
-		case 0:
+		switch {
+		case jk(r, 6):
 			f = append(f, fmt.Sprintf("%q:%s", k, junk(r)))
-		case 1, 2:
+		case r.Intn(5) < 2:
 			f = append(f, fmt.Sprintf("%q:%s", k, good))
 		}
 	}
 	add("fee_recipient", `"0x0123456789012345678901234567890123456789"`)
 	add("gas_limit", `"30000000"`)
 	add("grace", `"500"`)
-	add("min_value", `"0.1"`)
+	add("min_value", []string{`"0.1"`, `"0"`}[r.Intn(2)])
 	add("public_key", `"0x8a1d7b8dd64e0aafe7ea7b6c95065c9364cf99d38470c12ee807d55f7de1529ad29ce2c422e0b65e3d5a05c02caca249"`)
 	if proposerLevel {
 		add("disabled", `true`)
@@ -85,12 +96,15 @@ func relayObj(r *rand.Rand, proposerLevel bool) string {
 }
 
 func relaysObj(r *rand.Rand, proposerLevel bool) string {
-	if r.Intn(8) == 0 {
+	if jk(r, 8) {
 		return junk(r)
 	}
 	var f []string
 	for i := 0; i < r.Intn(4); i++ {
-		addr := []string{"https://relay1.com/", "https://relay2.com/", "", "://bad", "relay3", "http://[::1"}[r.Intn(6)]
+		addr := []string{"https://relay1.com/", "https://relay2.com/", "https://relay3.com/"}[r.Intn(3)]
+		if jk(r, 2) {
+			addr = []string{"", "://bad", "relay3", "http://[::1"}[r.Intn(4)]
+		}
 		f = append(f, fmt.Sprintf("%q:%s", addr, relayObj(r, proposerLevel)))
 	}
 	return "{" + strings.Join(f, ",") + "}"
@@ -133,37 +147,67 @@ func genConfig(r *rand.Rand) string {
 		}
 		return "{" + strings.Join(f, ",") + "}"
 	}
-	f := []string{`"version":` + []string{"2", "2", "2", "2", `"2"`, "null", "3"}[r.Intn(7)]}
+	tidy = r.Intn(2) == 0
+	defer func() { tidy = false }()
+	good := func(g string) string {
+		if jk(r, 3) {
+			return junk(r)
+		}
+		return g
+	}
+	ver := "2"
+	if jk(r, 3) {
+		ver = []string{`"2"`, "null", "3"}[r.Intn(3)]
+	}
+	f := []string{`"version":` + ver}
 	if r.Intn(3) == 0 {
-		f = append(f, `"fee_recipient":`+[]string{`"0x0123456789012345678901234567890123456789"`, junk(r)}[r.Intn(2)])
+		f = append(f, `"fee_recipient":`+good(`"0x0123456789012345678901234567890123456789"`))
 	}
 	if r.Intn(3) == 0 {
-		f = append(f, `"min_value":`+[]string{`"0.5"`, junk(r)}[r.Intn(2)])
+		f = append(f, `"min_value":`+good(`"0.5"`))
+	}
+	if r.Intn(3) == 0 {
+		f = append(f, `"gas_limit":`+good([]string{`"30000000"`, `"36000000"`}[r.Intn(2)]))
+	}
+	if r.Intn(4) == 0 {
+		f = append(f, `"grace":`+good(`"250"`))
 	}
 	if r.Intn(2) == 0 {
 		f = append(f, `"relays":`+relaysObj(r, false))
 	}
 	if r.Intn(2) == 0 {
-		if r.Intn(6) == 0 {
+		if jk(r, 6) {
 			f = append(f, `"proposers":`+junk(r))
 		} else {
 			var ps []string
 			for i := 0; i < r.Intn(4); i++ {
-				if r.Intn(6) == 0 {
+				if jk(r, 6) {
 					ps = append(ps, junk(r))
 					continue
 				}
 				prop := []string{`"Wallet 1/.*"`, `"0x8a1d7b8dd64e0aafe7ea7b6c95065c9364cf99d38470c12ee807d55f7de1529ad29ce2c422e0b65e3d5a05c02caca249"`,
-					`"0x000000000000000000000000000000000000000000000000000000000000000000000000000000000000000000000000"`, `"("`, `""`, junk(r)}[r.Intn(6)]
+					`"0x000000000000000000000000000000000000000000000000000000000000000000000000000000000000000000000000"`}[r.Intn(3)]
+				if jk(r, 2) {
+					prop = []string{`"("`, `""`, junk(r)}[r.Intn(3)]
+				}
 				p := []string{`"proposer":` + prop}
 				if r.Intn(2) == 0 {
 					p = append(p, `"relays":`+relaysObj(r, true))
 				}
 				if r.Intn(3) == 0 {
-					p = append(p, `"reset_relays":`+[]string{"true", junk(r)}[r.Intn(2)])
+					p = append(p, `"reset_relays":`+good("true"))
 				}
 				if r.Intn(3) == 0 {
-					p = append(p, `"fee_recipient":`+junk(r))
+					p = append(p, `"fee_recipient":`+good(`"0x0123456789012345678901234567890123456789"`))
+				}
+				if r.Intn(4) == 0 {
+					p = append(p, `"gas_limit":`+good(`"25000000"`))
+				}
+				if r.Intn(4) == 0 {
+					p = append(p, `"min_value":`+good([]string{`"0.2"`, `"0"`}[r.Intn(2)]))
+				}
+				if r.Intn(5) == 0 {
+					p = append(p, `"grace":`+good(`"100"`))
 				}
 				ps = append(ps, "{"+strings.Join(p, ",")+"}")
 			}
@@ -615,14 +659,22 @@ func caseErrorStrings(r *rand.Rand) string {
 // ---------- (h) bids with missing parts ----------
 
 type bidRelay struct {
-	addr string
-	bid  *builderspec.VersionedSignedBuilderBid
+	addr  string
+	bid   *builderspec.VersionedSignedBuilderBid
+	delay time.Duration
 }
 
 func (b bidRelay) Name() string              { return "r" }
 func (b bidRelay) Address() string           { return b.addr }
 func (b bidRelay) Pubkey() *phase0.BLSPubKey { return nil }
-func (b bidRelay) BuilderBid(context.Context, *builderapi.BuilderBidOpts) (*builderapi.Response[*builderspec.VersionedSignedBuilderBid], error) {
+func (b bidRelay) BuilderBid(ctx context.Context, _ *builderapi.BuilderBidOpts) (*builderapi.Response[*builderspec.VersionedSignedBuilderBid], error) {
+	if b.delay > 0 {
+		select {
+		case <-time.After(b.delay):
+		case <-ctx.Done():
+			return nil, ctx.Err()
+		}
+	}
 	return &builderapi.Response[*builderspec.VersionedSignedBuilderBid]{Data: b.bid, Metadata: map[string]any{}}, nil
 }
 func (b bidRelay) UnblindProposal(context.Context, *builderapi.UnblindProposalOpts) (*builderapi.Response[*api.VersionedSignedProposal], error) {
@@ -646,7 +698,9 @@ func caseOddBids(r *rand.Rand) string {
 		full = rl.BuildBid(&harness.BidSpec{Value: 7, Builder: 3, Header: 2, ZeroFeeRec: true, BadTime: true})
 	}
 	addr := fmt.Sprintf("http://oddbid%d-%d.example.com/", kind, r.Intn(1<<30))
-	util.VerifSetBuilderClient(addr, bidRelay{addr, full})
+	// answered at once, between the soft and the hard timeout (50 and 100 ms), or too late
+	delay := []time.Duration{0, 0, 70 * time.Millisecond, 75 * time.Millisecond, 130 * time.Millisecond}[r.Intn(5)]
+	util.VerifSetBuilderClient(addr, bidRelay{addr, full, delay})
 	clock := harness.NewVClock(12*time.Second, 32)
 	clock.Genesis = time.Unix(0, 0)
 	s, err := bidbest.New(bg, bidbest.WithLogLevel(zerolog.Disabled), bidbest.WithMonitor(nullmetrics.New()), bidbest.WithSpecProvider(harness.NewSpec(32, nil)), bidbest.WithDomainProvider(harness.RecDomains{}),
@@ -656,7 +710,7 @@ func caseOddBids(r *rand.Rand) string {
 	}
 	cfgs := map[phase0.BLSPubKey]*blockrelay.BuilderConfig{harness.BuilderPub(1): {Factor: big.NewInt(50)}}
 	_, _ = s.BuilderBid(bg, 0, phase0.Hash32{7, 7, 7}, phase0.BLSPubKey{1}, &beaconblockproposer.ProposerConfig{Relays: []*beaconblockproposer.RelayConfig{{Address: addr, MinValue: decimal.Zero}}}, cfgs)
-	return fmt.Sprintf("odd-bids|%d", kind)
+	return fmt.Sprintf("odd-bids|%d|%dms", kind, delay.Milliseconds())
 }
 
 // ---------- (i) the first auction after start-up: many relays answering at the same instant ----------
